@@ -11,6 +11,8 @@ Record case_C09 := {
   c9_dec : list (list N * (option json * dec));   (* bytes -> (decode()+loads(str), loads(bytes)) *)
   c9_fs : fs;                                     (* the damaged project *)
   c9_listing : list str;                          (* os.listdir(workspace), id-like names, in order *)
+  c9_truth : list (str * str);                    (* ground truth of the harness: (id of an original job, name of the
+                                                     directory that holds it now) — differs after a rename *)
   c9_check : ck;                                  (* Project(root).check() *)
   c9_open : list (str * result json);             (* Project(root).open_job(id=i).statepoint(), fresh each *)
   c9_repair : ck;                                 (* q = Project(root); q.repair() *)
@@ -105,30 +107,41 @@ Section INST9.
 
   Definition cachefile9 : cache := match cache_file (c9_fs c) with Some k => k | None => [] end.
 
-  (* where repair may legitimately move the content of job directory i *)
+  (* where repair may legitimately move the content of job directory i: only a MAPPING names another id *)
   Definition target (i : str) : option str :=
-    match decoded (c9_fs c) i with Some v => Some (cid9 v) | None => None end.
+    match decoded (c9_fs c) i with Some (JObj kvs) => Some (cid9 (JObj kvs)) | _ => None end.
 
-  (* a misnamed directory with an intact file: decodes to a mapping whose id is not taken, and no other
-     listed directory claims the same id *)
-  Definition misnamed (i : str) : option str :=
-    match decoded (c9_fs c) i with
-    | Some (JObj kvs) =>
-        let t := cid9 (JObj kvs) in
-        if negb (str_eqb t i) && negb (exists_ (c9_fs c) (jdir t))
-           && forallb (fun j => str_eqb j i || match target j with Some t' => negb (str_eqb t' t) | None => true end)
-                      (c9_listing c)
-        then Some t else None
-    | _ => None
-    end.
+  Definition cached_sound (i : str) : bool :=
+    match alookup i cachefile9 with Some sp => str_eqb (cid9 sp) i && is_objb sp | None => false end.
 
-  (* the job that repair() must make valid for damaged directory i, if the property promises one *)
-  Definition promised (i : str) : option str :=
-    if intact (c9_fs c) i then None
-    else match alookup i cachefile9 with
-         | Some sp => if str_eqb (cid9 sp) i && is_objb sp then Some i else None
-         | None => misnamed i
+  (* a directory holding an intact file (a mapping) of ANOTHER id: it can be moved *)
+  Definition movable (d : str) : bool :=
+    match target d with Some t => negb (str_eqb t d) | None => false end.
+
+  (* The property's promise, from the ground truth (j = id of an original job, d = its directory now):
+       in place, damaged, state point known from the cache           -> j validates after repair();
+       renamed, its intact file (hashing to j) still in directory d  -> j validates after repair(), whether or
+         not the name j is free — unless j is occupied by a directory that cannot itself be moved away
+         (then two jobs would claim one id and nothing may be deleted). *)
+  Definition promised (jd : str * str) : bool :=
+    let '(j, d) := jd in
+    if str_eqb j d then negb (intact (c9_fs c) j) && cached_sound j
+    else match target d with
+         | Some t => str_eqb t j && (negb (exists_ (c9_fs c) (jdir j)) || movable j)
+         | None => false
          end.
+
+  (* known findings (open), as classes of the INPUT:
+     2: the cache holds an entry for the NAME of the directory the job sits in (a removed job's id): repair()
+        trusts it, finds the name "correct" and overwrites the intact file;
+     1: the job's true id is occupied by another misnamed directory with an intact file (chained renames / a
+        cycle): repair() walks the listing once, so the job is restored only if the occupant was moved first *)
+  Definition excuse (jd : str * str) : N :=
+    let '(j, d) := jd in
+    if str_eqb j d then 0%N
+    else if cached_sound d then 2%N
+    else if exists_ (c9_fs c) (jdir j) && movable j then 1%N
+    else 0%N.
 
   Definition non_sp_files (f : fs) : list (path * list N) :=
     flat_map (fun e => match e with
@@ -159,23 +172,38 @@ Section INST9.
   Definition sp_ok (p : str * result json) : bool :=
     match snd p with Ok sp => str_eqb (cid9 sp) (fst p) | Err _ => true end.
 
-  (* the clauses of the oracle *)
-  Definition atoms : list bool :=
-    [ck_same (c9_check c) (expected_check (c9_fs c) (c9_listing c))]
-    ++ map sp_ok (c9_open c)
-    ++ flat_map (fun i => match promised i with
-                          | Some t => [intact (c9_after c) t]
-                          | None => []
-                          end) (c9_listing c)
-    ++ [frame_ok]
-    ++ [ck_same (c9_check_after c) (expected_check (c9_after c) (job_dirs (c9_after c) WSP))]
-    ++ map sp_ok (c9_open_after c).
+  (* the clauses of the oracle: (holds, tag of the open known finding that excuses a failure, 0 = none) *)
+  Definition atoms : list (bool * N) :=
+    [(ck_same (c9_check c) (expected_check (c9_fs c) (c9_listing c)), 0%N)]
+    ++ map (fun p => (sp_ok p, 0%N)) (c9_open c)
+    ++ flat_map (fun jd => if promised jd then [(intact (c9_after c) (fst jd), excuse jd)] else []) (c9_truth c)
+    ++ [(frame_ok, 0%N)]
+    ++ [(ck_same (c9_check_after c) (expected_check (c9_after c) (job_dirs (c9_after c) WSP)), 0%N)]
+    ++ map (fun p => (sp_ok p, 0%N)) (c9_open_after c).
 
-  Definition holds9 : bool := forallb (fun b => b) atoms.
+  Definition holds9 : bool := forallb fst atoms.
+
+  Definition known_tag9 : N :=
+    let failing := filter (fun a => negb (fst a)) atoms in
+    match failing with
+    | [] => 0%N
+    | _ => if forallb (fun a => negb (N.eqb (snd a) 0)) failing
+           then fold_left (fun m a => if N.eqb m 0 then snd a else N.min m (snd a)) failing 0%N
+           else 0%N
+    end.
 End INST9.
 
 Definition mismatch_C09 (c : case_C09) : bool := mismatch9 c.
 Definition violation_C09 (c : case_C09) : bool := negb (holds9 c).
 
+Fixpoint known_aux9 (cs : list case_C09) (i : N) : list N :=
+  match cs with
+  | [] => []
+  | c :: r =>
+      let t := known_tag9 c in
+      if N.eqb t 0 then known_aux9 r (N.succ i) else (i * 100 + t)%N :: known_aux9 r (N.succ i)
+  end.
+
 Definition mismatches_C09 (cs : list case_C09) : list N := indices_where mismatch_C09 cs.
+Definition known_C09 (cs : list case_C09) : list N := known_aux9 cs 0%N.
 Definition violations_C09 (cs : list case_C09) : list N := indices_where violation_C09 cs.
